@@ -8,11 +8,12 @@ class V:
 
     Static types: 'int','str','bool','float','bytes','Path','none', class names,
     'list[T]','set[T]','tuple[T]','dict[K,V]'."""
-    __slots__ = ("t", "ty")
+    __slots__ = ("t", "ty", "src")
 
-    def __init__(self, t, ty=None):
+    def __init__(self, t, ty=None, src=None):
         self.t = t
         self.ty = ty
+        self.src = src      # (owner V, field name) when the value was read from a field
 
     def __repr__(self):
         return f"V({self.t}:{self.ty})"
@@ -56,6 +57,7 @@ def base_type(ty):
 SPECIAL_SORTS = {
     "$elems": lambda: z3.ArraySort(Int, SeqV),          # list/tuple/set contents (iteration order)
     "$dkeys": lambda: z3.ArraySort(Int, SeqV),          # dict keys in insertion order
+    "$dhas": lambda: z3.ArraySort(Int, z3.ArraySort(Val, z3.BoolSort())),   # dict membership (solver friendly)
     "$dmap": lambda: z3.ArraySort(Int, z3.ArraySort(Val, Val)),
     "$class": lambda: z3.ArraySort(Int, Int),
     "$fs_kind": lambda: z3.ArraySort(PathS, Int),       # 0 absent 1 file 2 dir 3 symlink
@@ -85,6 +87,7 @@ class State:
         self.trace = []        # list[Effect]
         self.reads = set()
         self.writes = []       # list[(field, obj term or None)]
+        self.front = None      # z3 Int: next free address (allocation frontier)
         self.nalloc = 0
         self.ghost = {}        # name -> V (ghost variables of the function under proof)
         self.undecided = None  # reason string when the path met an unsupported construct
@@ -98,6 +101,7 @@ class State:
         s.reads = set(self.reads)
         s.writes = list(self.writes)
         s.nalloc = self.nalloc
+        s.front = self.front
         s.ghost = dict(self.ghost)
         s.undecided = self.undecided
         return s
